@@ -196,6 +196,22 @@ class _CommonVisitors(visitor.NodeVisitor):
         except TypeError:
             raise ex.TypeException(node.op.__class__.__name__, val)
 
+    def _refuse_uncomparable(self, node: ast.Compare) -> None:
+        """
+        ``null`` can only be tested with ``eq`` and ``ne``, and a list is only
+        an operand on the right of ``in``.
+
+        :meta private:
+        """
+        op_name = type(node.comparator).__name__
+        if not isinstance(node.comparator, (ast.Eq, ast.NotEq)):
+            if isinstance(node.left, ast.Null) or isinstance(node.right, ast.Null):
+                raise ex.TypeException(op_name, "null")
+        if isinstance(node.left, ast.List) or (
+            isinstance(node.right, ast.List) and not isinstance(node.comparator, ast.In)
+        ):
+            raise ex.TypeException(op_name, "List")
+
     def visit_Call(self, node: ast.Call) -> ClauseElement:
         ":meta private:"
         if node.func.namespace:
